@@ -278,7 +278,7 @@ def scenario(r):
 
 
 def gen(r, tier):
-    n = {"quick": 350, "search": 1200, "thorough": 4000}[tier]
+    n = {"quick": 220, "search": 800, "thorough": 3500}[tier]
     return [scenario(r) for _ in range(n)]
 
 
@@ -317,8 +317,23 @@ def distribution(cases, outs):
 
 
 MANIFEST = {
-    "text": "filled in below",
-    "note": "",
+    "text": ("Machine-checked proof (Coq) over a model of is_consistent / check_immutability of every QoS type (with "
+             "the Length, usize-vs-Length and DurationKind orders of the code) and of every create / set_qos / get_qos "
+             "path. For ANY state in which the entity exists: set_qos with an inconsistent QoS returns "
+             "InconsistentPolicy, a change of an immutable policy of an enabled writer / reader / topic / subscriber "
+             "returns ImmutablePolicy, in both cases the state is literally unchanged and get_qos returns the previous "
+             "value; otherwise (consistent, and not enabled or no immutable policy changed) the QoS is accepted and "
+             "get_qos returns exactly it; a writer / reader creation with an inconsistent QoS is refused and adds "
+             "nothing; the code's consistency and immutability tests equal the rules of the DDS specification for all "
+             "in-range values. Two recorded findings: set_qos of an enabled PUBLISHER changes PRESENTATION (no "
+             "immutability check) and create_topic accepts an inconsistent QoS. The model is tied to the code by "
+             "scenarios of create / set_qos / get_qos / enable with boundary-biased QoS values on the real stack in the "
+             "simulator, compared inside Coq; a tracker of the last accepted QoS and of the certainly-enabled state is "
+             "the oracle on the implementation's results."),
+    "note": ("Trusted: Coq kernel + vm_compute; hand model EntityModel.v (checked by the correspondence run); simulator "
+             "harness; the spec predicates of C37Corr.v. Axioms: none. NOT covered: 'announced to remote participants' "
+             "(no second participant reads the discovered QoS; C13 covers the wire form), set_default_*_qos. Known "
+             "findings C37-publisher-presentation-mutable, C37-topic-create-inconsistent (patches in proposed_fixes/)."),
     "technique": "Coq proof (state-independent theorems about every set_qos / create path + equivalence of the code's "
                  "checks with the specification's rules) + differential correspondence on the simulated stack with a "
                  "last-accepted-QoS tracker oracle evaluated in Coq",
